@@ -311,7 +311,7 @@ def run_config(acc, c, tmpdir, live=False):
             return bad("unlock-not-attempted-although-required")
         acc.count("served" if served else "refused")
         if served and not live and c["platform"] == "ledger" and \
-                zlib.crc32(key.encode()) % 4 == 0:
+                zlib.crc32(key.encode()) % 2 == 0:
             unsafe_after_reconnection(acc, c, s, dev, bad)
         if len(acc.samples) < 3 and (served or n_unlock):
             acc.sample({"config": c, "served": served, "unlock_commands": n_unlock,
@@ -332,7 +332,8 @@ def unsafe_after_reconnection(acc, c, s, dev, bad):
     s.request(req)
     s.bus.arm({})
     dev.pending_link = None
-    how = rng.choice(["signer-version", "signer-version", "not-onboarded", "locked-no-retries"])
+    how = rng.choice(["signer-version", "not-onboarded", "locked-no-retries",
+                      "locked-no-retries"])
     if how == "signer-version":
         dev.cfg["signer_version"] = rng.choice([(5, 5, 0), (6, 0, 0), (4, 4, 1), (5, 4, 2)])
     elif how == "not-onboarded":
@@ -341,13 +342,25 @@ def unsafe_after_reconnection(acc, c, s, dev, bad):
         dev.mode = MODE_BOOTLOADER
         dev.unlocked = False
         dev.retries = 1
+        # (the checks that precede the retries check pass: it is the retries check that
+        # decides, and it decides that the manager stops)
+        dev.cfg["echo_ok"] = True
+        dev.cfg["ui_version"] = (5, 4, 1)
+    # the requests that run into the repair are of any kind (each command's handler has
+    # its own call of the reconnection and its own error handling around it)
+    from . import c02
+    pool = [v for k_, v in sorted(c02.bases(rng, False).items()) if k_ != "version"]
     cut = rng.choice([None, (0x43, "timeout"), (0x06, "timeout"), (0x11, "sw"),
                       (0x43, "sw"), (0x06, "sw")])
     if cut:
         s.bus.arm_cmd({cut[0]: Fault("timeout") if cut[1] == "timeout" else
                        Fault("sw", sw=0x6B00)})
     acc.count("reconnections_to_an_unsafe_device")
+    asked = []
+    req = rng.choice(pool)
     for k in range(3):
+        asked.append(req["command"] + ("/" + "".join(sorted(req.get("message", {})))[:12]
+                                       if req["command"] == "sign" else ""))
         r, e, _ = s.request(req)
         if e is None and isinstance(r, dict) and r.get("errorcode") == 0:
             bad("served-from-unsafe-state:after-reconnection:%s" % how, request_no=k,
@@ -355,6 +368,11 @@ def unsafe_after_reconnection(acc, c, s, dev, bad):
             return
         if e is not None:
             return      # the manager stopped: fine
+    if how == "locked-no-retries":
+        # one retry left: the bring-up of the repair ends in "stop" (at the latest on the
+        # request after the one whose repair was cut short)
+        bad("manager-kept-running-after-a-repair-that-must-stop-it", requests=asked,
+            first_repair_cut_by=cut)
 
 
 def run_live(s, hangup=None):
